@@ -27,7 +27,8 @@ fn fastq_bytes(recs: &[(String, Vec<u8>)]) -> Vec<u8> {
         s.push(b'@'); s.extend_from_slice(id.as_bytes()); s.extend_from_slice(b" 1:N:0:ACGT length=7\n");
         s.extend_from_slice(seq); s.extend_from_slice(b"\n+\n");
         // legal Phred+33 quality characters include '@' (Q31) and '+' (Q10), also as the first character of the line
-        for i in 0..seq.len() { s.push(b"@I+5@"[(i + seq.len()) % 5]); }
+        // ... and so do ';' (Q26), '>' (Q29) and '#' (Q2)
+        for i in 0..seq.len() { s.push(b"@I+5;>#"[(i + seq.len()) % 7]); }
         s.push(b'\n');
     }
     s
@@ -117,6 +118,31 @@ pub fn c06(o: &Opts) -> Outcome {
             std::fs::write(&path, b).unwrap();
             cases += 1;
             if let Some(w) = check_file(&path, &recs, if fq { "fq-gz with empty members" } else { "fa-gz with empty members" }) { return Outcome { cases, witness: Some(w) }; }
+        }
+    }
+    // FASTQ records whose quality line starts with each of the characters that start other kinds of lines
+    {
+        let recs: Vec<(String, Vec<u8>)> = (0..14).map(|i| (format!("q{}", i), (0..20 + i).map(|j| b"ACGT"[(i + j) % 4]).collect())).collect();
+        let sc = Scratch::new("reader");
+        let path = sc.path("qual.fq");
+        std::fs::write(&path, fastq_bytes(&recs)).unwrap();
+        cases += 1;
+        if let Some(w) = check_file(&path, &recs, "fq with quality lines starting with @ + ; > #") { return Outcome { cases, witness: Some(w) }; }
+    }
+    // the same path read, rewritten with other records of the same size (same compressed size too), and read again in one process
+    for gzipped in [true, false] {
+        let sc = Scratch::new("reader");
+        let path = sc.path(if gzipped { "again.fa.gz" } else { "again.fa" });
+        for round in 0..3usize {
+            let recs: Vec<(String, Vec<u8>)> = (0..5).map(|i| (format!("r{}", (i + round) % 10), (0..40 + i).map(|j| b"ACGT"[(i + j + round) % 4]).collect())).collect();
+            let bytes = fasta_bytes(&recs, 0, false);
+            if gzipped {
+                let mut e = flate2::write::GzEncoder::new(Vec::new(), flate2::Compression::none());
+                e.write_all(&bytes).unwrap();
+                std::fs::write(&path, e.finish().unwrap()).unwrap();
+            } else { std::fs::write(&path, bytes).unwrap(); }
+            cases += 1;
+            if let Some(w) = check_file(&path, &recs, &format!("{} rewritten in place with different records of the same size, read {}", if gzipped { "fa-gz" } else { "fa" }, round + 1)) { return Outcome { cases, witness: Some(w) }; }
         }
     }
     let mut rng = Rng(o.seed.wrapping_mul(0x9E3779B97F4A7C15) | 1);
